@@ -3,7 +3,7 @@ from .. import sym
 from ..evalfn import SELF
 from ..sym import canon
 from . import core_rules
-from .common import CORE, G, Roles, cur, fld, guard_subset, has_lit, plain, short
+from .common import own_event, CORE, G, Roles, cur, fld, guard_subset, has_lit, plain, short
 from .core_rules import bound_args, equal
 
 Q0_REF = '''
@@ -46,7 +46,7 @@ def run(chk):
         chk.ob("C05.R1", has_lit(e.guard, z_amount, False), CORE, host, "zero-amount-noop:%s" % e.name, "a zero amount does nothing", where=e.where, expected="return under is_zero(amount) first",
                found=sym.fmt_guard(e.guard)[:200])
     for r in S.raises:
-        if r.chain != (fi.qual,):
+        if not own_event(r, fi.qual):
             continue
         chk.ob("C05.R1", has_lit(r.guard, z_amount, False), CORE, host, "zero-amount-never-raises", "a zero amount does nothing - it does not even validate the price (a flat child of a "
                "strategy receives allocate(0) on every spread)", where=r.where, expected="return under is_zero(amount) before any validation", found=sym.fmt_guard(plain(r.guard))[:200])
